@@ -5,6 +5,10 @@ import sqlite3
 import vf
 vf.use_repo()
 from ak.mtd_sql import SqlMethod  # noqa: E402
+try:
+    from ak.mcaller_sql import SqlMethodT  # noqa: E402
+except Exception:  # pragma: no cover
+    SqlMethodT = None
 from vf.core import sig_of  # noqa: E402
 
 ID = "C15"
@@ -12,8 +16,8 @@ LEVEL = "exploration"
 RULE = ("an sqlite3 in-memory table (0-12 rows, INTEGER and TEXT columns with NULLs, '', quotes, % and _, SQL "
         "fragments) is queried through SqlMethod.list / all / one / one_or_none with 0-4 generated conditions: "
         "comparisons, = / != with None, list or tuple, IN / NOT IN with list / tuple / set incl. empty and NULL "
-        "members, IS [NOT] NULL, [NOT] LIKE, OR groups (also empty, nested, with keyword operands), static "
-        "conditions with lower-case string literals, IN / NOT IN lists of 999-2001 values, keyword filters, interleaved None arguments, _order_by, _as_scalars, GROUP BY methods; 20% "
+        "members, IS [NOT] NULL, [NOT] LIKE, OR groups (also empty, single-operand, nested, with keyword operands, with static operands that contain a bare OR), static "
+        "conditions with lower-case string literals, a column whose name starts with an underscore, the SqlMethodT wrapper (list / one / one_or_none returning a table), IN / NOT IN lists of 999-2001 values, keyword filters, interleaved None arguments, _order_by, _as_scalars, GROUP BY methods; 20% "
         "of the cases through a connection whose type name selects %s placeholders. A cursor proxy records "
         "(sql, params). Oracle: harness evaluator of SQL three-valued logic over the Python rows gives the "
         "expected ids in the requested order; placeholders == number of params; params == the multiset of values the "
@@ -191,14 +195,23 @@ STATICS = [
     ("s > 'a'", lambda row: cmp('>', row['s'], 'a')),
     ("(n is null or s = 'abc')", lambda row: OR([row['n'] is None, cmp('=', row['s'], 'abc')])),
 ]
+# static texts with a bare OR: only the parentheses an OR group promises make them safe, so they are
+# generated as operands of OR groups only (first N_TOP entries of STATICS may stand at the top level)
+N_TOP = len(STATICS)
+STATICS += [
+    ("n = id OR s = 'ab'", lambda row: OR([cmp('=', row['n'], row['id']), cmp('=', row['s'], 'ab')])),
+    ("s is null or n > 1", lambda row: OR([row['s'] is None, cmp('>', row['n'], 1)])),
+]
 
 
 def gen_cond(rng, depth=0):
     r = rng.random()
     if depth < 2 and r < 0.2:
-        return ('or', [gen_cond(rng, depth + 1) for _ in range(rng.randint(0, 3))])
+        return ('or', [gen_cond(rng, depth + 1) for _ in range(rng.choice([0, 1, 1, 2, 3]))])
     if r < 0.24:
-        return ('static', rng.randrange(len(STATICS)))
+        return ('static', rng.randrange(len(STATICS) if depth else N_TOP))
+    if r < 0.28:
+        return ('f', '_d', '=', rng.choice([0, 1, None]))
     col = rng.choice(['n', 's'])
     dom = INTS if col == 'n' else STRS
     nn = [v for v in dom if v is not None]
@@ -235,7 +248,14 @@ def gen_cond(rng, depth=0):
 
 def to_arg(c, rng):
     if c[0] == 'or':
-        return SqlMethod._or(*[to_arg(x, rng) for x in c[1]])
+        pos, kw = [], {}
+        for x in c[1]:
+            # operands 'column = value' may be given as keywords of the group
+            if x[0] == 'f' and x[2] == '=' and x[1] not in kw and rng.random() < 0.4:
+                kw[x[1]] = x[3]
+            else:
+                pos.append(to_arg(x, rng))
+        return SqlMethod._or(*pos, **kw)
     if c[0] == 'static':
         return STATICS[c[1]][0]
     _, col, op, val = c
@@ -269,12 +289,20 @@ def method(kind):
     return _METHODS[kind]
 
 
+def table_method(m):
+    key = "table-m" if m is not None else "table-sql"
+    if key not in _METHODS:
+        _METHODS[key] = SqlMethodT(m) if m is not None else SqlMethodT("SELECT id, n, s FROM t", order_by="id")
+    return _METHODS[key]
+
+
 def run_case(ctx, rng):
     ctx.evaluated()
     db = sqlite3.connect(":memory:")
-    db.execute("CREATE TABLE t (id INTEGER PRIMARY KEY, n INTEGER, s TEXT)")
-    rows = [{'id': i, 'n': rng.choice(INTS), 's': rng.choice(STRS)} for i in range(rng.randint(0, 12))]
-    db.executemany("INSERT INTO t VALUES (:id, :n, :s)", rows)
+    db.execute("CREATE TABLE t (id INTEGER PRIMARY KEY, n INTEGER, s TEXT, _d INTEGER)")
+    rows = [{'id': i, 'n': rng.choice(INTS), 's': rng.choice(STRS), '_d': rng.choice([0, 0, 1, None])}
+            for i in range(rng.randint(0, 12))]
+    db.executemany("INSERT INTO t VALUES (:id, :n, :s, :_d)", rows)
     percent_s = rng.random() < 0.2
     conn = (MysqlLikeConn if percent_s else Conn)(db)
     conds = [gen_cond(rng) for _ in range(rng.choice([0, 1, 1, 2, 2, 3, 4]))]
@@ -295,10 +323,16 @@ def run_case(ctx, rng):
         v = rng.choice(STRS)
         kw['s'] = v
         kw_conds.append(('f', 's', '=', v))
+    if rng.random() < 0.15:
+        v = rng.choice([0, 1])
+        kw['_d'] = v           # a column whose name starts with an underscore, like the method's own options
+        kw_conds.append(('f', '_d', '=', v))
     kw_conds.sort(key=lambda c: c[1])
     all_conds = conds + kw_conds
     order = rng.choice(["id", "id DESC", None])
-    mode = rng.choice(["list", "list", "all", "one", "one_or_none", "scalars", "group"])
+    mode = rng.choice(["list", "list", "all", "one", "one_or_none", "scalars", "group", "table"])
+    if mode == "table" and SqlMethodT is None:
+        mode = "list"
     case = {"rows": rows, "conds": all_conds, "order": order, "mode": mode, "percent_s": percent_s}
     exp = [r['id'] for r in rows if AND(ev(c, r) for c in all_conds) is True]
     if order == "id DESC":
@@ -333,6 +367,21 @@ def run_case(ctx, rng):
                     if len(exp) == 1 or (mode == "one_or_none" and not exp):
                         ctx.violation("one-row-method-raises", {"mode": mode, "rows": len(exp)}, case)
                 got = None
+            elif mode == "table":
+                # the same query through the wrapper that presents the records as a printable table
+                mt = table_method(m if rng.random() < 0.5 else None)
+                sub = rng.choice(["list", "list", "one", "one_or_none"])
+                ctx.count("queries_through_SqlMethodT")
+                try:
+                    tbl = getattr(mt, sub)(conn, *args, **call_kw)
+                    got = [r[0] for r in tbl.r]
+                    if (sub == "one" and len(exp) != 1) or (sub == "one_or_none" and len(exp) > 1):
+                        ctx.violation("one-row-method-does-not-raise", {"mode": "table." + sub, "rows": len(exp)}, case)
+                        got = None
+                except ValueError:
+                    if sub == "list" or len(exp) == 1 or (sub == "one_or_none" and not exp):
+                        ctx.violation("one-row-method-raises", {"mode": "table." + sub, "rows": len(exp)}, case)
+                    got = None
             elif mode == "all":
                 got = [r[0] for r in m.all(conn, *args, **call_kw)]
             elif mode == "scalars":
